@@ -181,6 +181,8 @@ class C01(Check):
         else:
             fam += expr.generate(seed, 40)
         us = [assembly_unit(s) for s in fam]
+        for u, s in zip(us, fam):
+            u.optional = s.name.startswith("gen")
         sig = sigma_specs(1) + (sigma_specs(2) if tier != "quick" else sigma_specs(2)[::7])
         if tier != "quick":
             sig += sigma_specs(3)[::3]
